@@ -341,7 +341,7 @@ func (in *Interp) assertT(c *Term, label string) {
 		in.violate(label, "assertion is false on this path")
 		panic(pathAbort{"violation", label})
 	}
-	r, model := in.e.solver.check([]*Term{mkNot(c)}, in.modelWant())
+	r, model := in.e.solver.checkX([]*Term{mkNot(c)}, in.modelWant(), true)
 	switch r {
 	case "sat":
 		in.recordViolation(label, "", model)
